@@ -82,6 +82,52 @@ func (fv *funcVerifier) pureCall(call *ast.CallExpr) bool {
 	return false
 }
 
+// deleteOnlyBody reports whether a loop body syntactically cannot create a map entry: no
+// assignment / inc-dec to a map element, every call is pure (spec "pure", pure library function,
+// conversion) or the builtin delete, and there is no go statement, channel operation or closure.
+func (fv *funcVerifier) deleteOnlyBody(b *ast.BlockStmt) bool {
+	ok := true
+	isMapElem := func(e ast.Expr) bool {
+		if ix, isIx := ast.Unparen(e).(*ast.IndexExpr); isIx {
+			if _, isMap := fv.typeOf(ix.X).Underlying().(*types.Map); isMap {
+				return true
+			}
+		}
+		return false
+	}
+	ast.Inspect(b, func(m ast.Node) bool {
+		switch y := m.(type) {
+		case *ast.AssignStmt:
+			for _, l := range y.Lhs {
+				if isMapElem(l) {
+					ok = false
+				}
+			}
+		case *ast.IncDecStmt:
+			if isMapElem(y.X) {
+				ok = false
+			}
+		case *ast.CallExpr:
+			if id, isId := ast.Unparen(y.Fun).(*ast.Ident); isId {
+				if bi, isB := fv.info.Uses[id].(*types.Builtin); isB && bi.Name() == "delete" {
+					return true
+				}
+			}
+			if !fv.pureCall(y) {
+				ok = false
+			}
+		case *ast.GoStmt, *ast.SendStmt, *ast.FuncLit, *ast.DeferStmt:
+			ok = false
+		case *ast.UnaryExpr:
+			if y.Op == token.ARROW {
+				ok = false
+			}
+		}
+		return ok
+	})
+	return ok
+}
+
 func (fv *funcVerifier) computeMod(nodes ...ast.Node) *modInfo {
 	mi := &modInfo{vars: map[*types.Var]bool{}, keys: map[string]bool{}, ghosts: map[string]bool{}}
 	// ghost variables set by callee contracts, also inside function literals (go/defer closures run inline in mode goinline)
@@ -998,6 +1044,14 @@ func (fv *funcVerifier) execRange(st *State, x *ast.RangeStmt, label string) {
 		fv.nQuant++
 		k := smt.Term{S: fmt.Sprintf("vk!%d", fv.nQuant), Sort: fv.so.sortOf(mt.Key())}
 		fv.assume(exit, smt.Implies(smt.Eq(d0, d1), smt.Forall([]smt.Term{k}, smt.Implies(smt.Select(d0, k), smt.Select(exit.ghost["visited"], k)))))
+		if fv.deleteOnlyBody(x.Body) {
+			// the body creates no map entry (it only deletes): every entry still present at normal
+			// termination was produced (Go spec, "For statements with range clause": entries removed
+			// before being reached are not produced, only created entries may be skipped)
+			fv.nQuant++
+			k2 := smt.Term{S: fmt.Sprintf("vk!%d", fv.nQuant), Sort: fv.so.sortOf(mt.Key())}
+			fv.assume(exit, smt.Forall([]smt.Term{k2}, smt.Implies(smt.Select(d1, k2), smt.Select(exit.ghost["visited"], k2))))
+		}
 	}
 	res := fv.mergeAll(exit, frame.breaks)
 	if kind == "map" {
